@@ -287,3 +287,60 @@ def run(P, C, tier):
     for k, v in sorted(tab.items()):
         C.ob("R5", "user-entitlement:" + k, v == want, "src/database/room_node.rs" if k != "live" else "src/database/authorisation_service.rs",
              "a user entry is accepted from a user admin of the group or a room admin; this path accepts: %s" % sorted(v))
+    r7_change_flag(P, C)
+
+
+def r7_change_flag(P, C, R="R7"):
+    """prepare_room_with_history / prepare_auth_with_history return `need_update`: true when ANY part of the received definition
+    changes the stored one. The caller stores the merged room only when the flag is true, so a part whose verdict overwrites an
+    earlier `true` is dropped from the stored room although it was accepted. Decided on the definitions of the returned flag."""
+    C.rule(R, "the change flag returned by the merge of a received room definition accumulates: after its initialisation it is only ever set to "
+              "true, OR-ed with a new verdict, or assigned while it is known to be false -- never overwritten by the verdict of a later part")
+    n = 0
+    for fn in ("room_node::prepare_room_with_history", "room_node::prepare_auth_with_history"):
+        try:
+            b = P.body(fn)
+        except mir.MissingAnchor as e:
+            C.anchor_missing(R, fn, e)
+            continue
+        C.saw(b)
+        flags = set()
+        for bi in mir.return_assignments(b)["Ok"]:
+            for st in b.blocks[bi]["s"]:
+                if st["lhs"] == [0] and st["rv"]["r"] == "aggr" and st["rv"]["ops"]:
+                    t = mir.strip_refs(b.operand_term(st["rv"]["ops"][0]))
+                    if t[0] == "var" and len(t) > 2 and b.locals[t[2]] == "bool":
+                        flags.add(t[2])
+        for L in sorted(flags):
+            ds = [d for d in b.defs().get(L, ()) if len(d[3]) == 1 and d[0] in b.live_blocks()]
+            bad = []
+            for (bi, si, rv, lhs) in ds:
+                if si is not None and rv["r"] == "use" and "k" in rv["o"] and rv["o"]["k"].get("ty") == "bool":
+                    if rv["o"]["k"].get("v") is True:
+                        continue
+                    if all(bi in b.dom_chain(o[0]) for o in ds if o is not (bi, si, rv, lhs) and o[0] != bi):
+                        continue  # the initialisation
+                    bad.append("reset to false at %s" % b.loc(bi))
+                    continue
+                if si is not None and rv["r"] == "bin" and rv["op"] in ("BitOr",):
+                    ops = [mir.strip_refs(b.operand_term(rv["a"])), mir.strip_refs(b.operand_term(rv["b"]))]
+                    if any(o[0] == "var" and len(o) > 2 and o[2] == L for o in ops):
+                        continue
+                dt = mir.strip_refs(b.def_term(bi, si, rv, 0))
+                alts = dt[1] if dt[0] == "phi" else [dt]
+                if all((a_[0] == "var" and len(a_) > 2 and a_[2] == L) or (a_[0] == "const" and a_[1] is True) for a_ in map(mir.strip_refs, alts)):
+                    continue  # keeps its value (`flag = verdict || flag` on the false edge)
+                known_false = False
+                for s_, vals, term in b.guards(bi):
+                    atom, truth = mir.cond_atoms(term, vals)
+                    atom = mir.strip_refs(atom)
+                    if atom[0] == "var" and len(atom) > 2 and atom[2] == L and truth is False:
+                        known_false = True
+                if known_false or len(ds) == 1:
+                    continue
+                bad.append("overwritten by a computed value at %s" % b.loc(bi))
+            n += 1
+            C.ob(R, "change-flag:%s" % fn.split("::")[-1], not bad, b.loc(),
+                 "%d definition(s) of the returned flag; %s" % (len(ds), "all accumulate" if not bad else "; ".join(bad) +
+                 " -- an accepted change of an earlier part (a new admin, a new member of another group) is not stored when the last part brings nothing new"))
+    C.floor(R, "returned change flags", n, 2)
